@@ -43,10 +43,11 @@ def _ctx():
     return transformer.Context(ei, None, None)
 
 
-def run_impl(src, config):
-    """-> ('ok', FunctionDef) | ('err', exception type name, message)"""
+def run_impl(src, config, tree=None):
+    """-> ('ok', FunctionDef, hoisted names) | ('err', exception type name, message).
+    tree: the very object to transform (a tree that went through earlier calls), src = its text"""
     from malt.pyct.common_transformers import anf
-    node = ast.parse(src).body[0]
+    node = tree if tree is not None else ast.parse(src).body[0]
     before = {id(n) for n in ast.walk(node) if isinstance(n, ast.stmt)}     # `node` stays alive: ids are not reused
     try:
         out = anf.transform(node, _ctx(), config)
@@ -243,11 +244,12 @@ def lazy_positions(node, config):
     return out
 
 
-def oracle(src, config, seed):
+def oracle(src, config, seed, tree=None):
     """Judges the property text on the real code for one program and configuration.
-    -> (status, failures) ; status in accepted/rejected ; failures = list of (kind, what, detail)"""
+    -> (status, failures) ; status in accepted/rejected ; failures = list of (kind, what, detail)
+    tree: transform this object (whose text is src) instead of a freshly parsed one"""
     orig = ast.parse(src).body[0]
-    res = run_impl(src, config)
+    res = run_impl(src, config, tree)
     fails = []
     if res[0] == 'crash':
         return 'crashed', [('crash', 'anf.transform raised %s: %s' % (res[1], res[2]), '')], None
@@ -255,6 +257,12 @@ def oracle(src, config, seed):
     if res[0] == 'err':
         return 'rejected', [], None
     out, hoisted = res[1], res[2]
+    for n in ast.walk(orig):
+        if isinstance(n, (ast.ListComp, ast.SetComp, ast.DictComp, ast.GeneratorExp)) or \
+                (isinstance(n, ast.Compare) and len(n.ops) > 1):
+            fails.append(('lazy', 'a function containing a comprehension / chained comparison was accepted instead of rejected',
+                          unparse(n)))
+            break
     if lazies:
         # accepted although a lazy construct needs hoisting: must have been left untouched
         keep = {ast.dump(n) for n in lazies}
@@ -289,6 +297,36 @@ def oracle(src, config, seed):
                            'transformed': {'outcome': r2[0], 'events': r2[1][:40]}}))
             break
     return 'accepted', fails, out
+
+
+def oracle_history(src, cfg_a, insert, cfg_b, seed):
+    """The property over histories of calls on ONE tree object: transform(tree, A); optionally a later pass
+    inserts statements; transform(tree, B).  The last call is judged like any call: against the text the
+    tree had when it was made, and against configuration B.
+    -> (status, failures, out, text before the last call) ; status 'skipped' if the first call does not
+    produce a usable program"""
+    from malt.pyct.common_transformers import anf
+    node = ast.parse(src).body[0]
+    try:
+        out1 = anf.transform(node, _ctx(), cfg_a)
+    except Exception:   # noqa
+        return 'skipped', [], None, None
+    if not isinstance(out1, ast.FunctionDef):
+        return 'skipped', [], None, None
+    if insert:
+        new = ast.parse(insert).body
+        out1.body[0:0] = new
+    try:
+        ast.fix_missing_locations(out1)
+        src2 = ast.unparse(out1) + '\n'
+        compile(src2, '<history>', 'exec')
+    except Exception:   # noqa
+        return 'skipped', [], None, None
+    status, fails, out2 = oracle(src2, cfg_b, seed, tree=out1)
+    return status, fails, out2, src2
+
+
+INSERTS = ['x = f(a(1), b.m[c])', 'y = g(h(o)).val\nz = -p(q)', 'x = [q for q in a(1)]', None, None]
 
 
 # ---------------------------------------------------------------------------------- check
@@ -450,6 +488,44 @@ def _check(run):
             st, _, out0 = oracle(src, cfg, run.seed + i0)
             corr_bad = {'disagreeing_cases': bad_all[:20], 'first': {'program': src, 'config': cd, 'implementation': st,
                         'implementation_output': unparse(out0) if out0 is not None else None}}
+    # 4b. histories of calls on one tree object: A then B (narrow -> default, default -> default after a
+    # later pass inserted statements, random -> random), last call judged against B
+    hrnd = random.Random(run.seed * 104729 + 6)
+    dflt_tail = [(anf.ASTEdgePattern(anf.ANY, anf.ANY, (ast.Constant, ast.Name)), anf.LEAVE),
+                 (anf.ASTEdgePattern(anf.ANY, anf.ANY, ast.expr), anf.REPLACE)]
+    narrow = [([(anf.ASTEdgePattern(ast.If, 'test', anf.ANY), anf.REPLACE)], "[(anf.ASTEdgePattern(ast.If, 'test', anf.ANY), anf.REPLACE)]"),
+              ([(anf.ASTEdgePattern(ast.Call, 'args', ast.expr), anf.REPLACE)], "[(anf.ASTEdgePattern(ast.Call, 'args', ast.expr), anf.REPLACE)]"),
+              ([(anf.ANY, anf.LEAVE)], '[(anf.ANY, anf.LEAVE)]')]
+    cands = [pr for pr in progs if pr[0] in ('corpus', 'model', 'fixed') and 'tmp_1' not in pr[1]]
+    n_hist = 600 if run.tier == 'thorough' else 160
+    hstats = {'accepted': 0, 'rejected': 0, 'crashed': 0, 'skipped': 0}
+    for h in range(n_hist):
+        stream, src, _, _ = cands[(h * 7) % len(cands)]
+        kind = h % 4
+        if kind == 0:
+            (ca, da), (cb, db), ins = narrow[hrnd.randrange(len(narrow))], (None, 'default'), None
+        elif kind == 1:
+            (ca, da), (cb, db), ins = (None, 'default'), (None, 'default'), INSERTS[hrnd.randrange(3)]
+        elif kind == 2:
+            (ca, da), (cb, db), ins = narrow[hrnd.randrange(len(narrow))], (dflt_tail, 'default rules'), INSERTS[hrnd.randrange(len(INSERTS))]
+        else:
+            (ca, da), (cb, db), ins = G.gen_config(hrnd, anf), G.gen_config(hrnd, anf), INSERTS[hrnd.randrange(len(INSERTS))]
+        run.count()
+        status, fails, out2, src2 = oracle_history(src, ca, ins, cb, run.seed + h)
+        hstats[status] += 1
+        if status == 'skipped':
+            continue
+        orig2 = ast.parse(src2).body[0]
+        if status == 'accepted' and ast.dump(out2) != ast.dump(orig2):
+            run.nontriv('h%d' % h)
+        for kd, what, detail in fails:
+            cl = classify(orig2, out2, cb, kd, detail)
+            doc = _replay_doc(src2, 'default' if cb is None else db, kd, what, detail, out2, run.seed + h)
+            doc['history'] = {'first_program': src, 'first_config': da, 'inserted_before_last_call': ins,
+                              'last_config': db, 'note': 'all calls are made on the same tree object; '
+                              '`program` is the text of the tree when the last call was made'}
+            failures.append((kd, what + ' (last call of a history of transform calls on one tree)', doc, cl))
+    run.extra['histories'] = hstats
     # 5. verdict
     seen = set()
     unknown = 0
@@ -485,6 +561,19 @@ def replay(path):
     doc = json.load(open(path))
     print(json.dumps(doc, indent=1))
     r = doc.get('replay', {})
+    if 'history' in r:
+        from malt.pyct.common_transformers import anf   # noqa
+        hh = r['history']
+        ev = lambda d: None if d.startswith('default') and 'rules' not in d else (   # noqa
+            eval(d, {'anf': anf, 'ast': ast, 'ANY': anf.ANY}) if d.startswith('[') else
+            [(anf.ASTEdgePattern(anf.ANY, anf.ANY, (ast.Constant, ast.Name)), anf.LEAVE),
+             (anf.ASTEdgePattern(anf.ANY, anf.ANY, ast.expr), anf.REPLACE)])
+        status, fails, out, _ = oracle_history(hh['first_program'], ev(hh['first_config']), hh['inserted_before_last_call'],
+                                               ev(hh['last_config']), r.get('oracle_seed', 0))
+        print('status now:', status)
+        for f in fails:
+            print('FAIL', f[0], f[1])
+        return 1 if fails else 0
     if 'program' in r:
         from malt.pyct.common_transformers import anf   # noqa
         cfg = None if r['config'].startswith('default') else eval(r['config'], {'anf': anf, 'ast': ast, 'ANY': anf.ANY})
